@@ -292,6 +292,20 @@ class Check:
                         problems.append(f'theorem {nme} depends on assumptions outside the allow-list: {notok}')
                     else:
                         self.discharged.append(nme)
+        if self.tier == 'thorough' and ok and names and not problems:
+            # independent re-check of the compiled property file and everything it depends on, with the axiom listing
+            to = int(os.environ.get('VERIF_COQCHK_TIMEOUT', '3600'))
+            r = subprocess.run(['timeout', str(to), 'coqchk', '-silent', '-o', '-Q', str(THEORIES), 'Hpotk', f'Hpotk.Properties.{self.pid}'],
+                               cwd=COQ, capture_output=True, text=True)
+            out = r.stdout + r.stderr
+            if r.returncode == 124:
+                self.extra['coqchk'] = f'timed out after {to} s (the kernel-float sweeps are re-evaluated by coqchk); not a verdict'
+            elif r.returncode != 0:
+                problems.append('coqchk rejects the compiled development: ' + out[-800:])
+            else:
+                m = re.search(r'\* Axioms:(.*?)\n\s*\n\* Constants/Inductives relying on type-in-type:(.*?)\n', out, re.S)
+                self.extra['coqchk'] = {'axioms': ' '.join(m.group(1).split()) if m else out[-600:],
+                                        'type_in_type': ' '.join(m.group(2).split()) if m else '?'}
         if problems:
             self.gate_problems = problems
         else:
@@ -309,7 +323,7 @@ class Check:
         env['VERIF_REPO'] = str(REPO)
         return env
 
-    def run_impl(self, observer, payload, timeout=600, hashseed=None):
+    def run_impl(self, observer, payload, timeout=600, hashseed=None, extra_env=None):
         """Run harness/impl_<observer>.py:observe(payload) against $VERIF_REPO/src in a fresh
         interpreter.  Returns the JSON result; raises ImplFailure when the worker dies/hangs."""
         inp = self.work / f'impl_in_{observer}.json'
@@ -318,7 +332,10 @@ class Check:
         if outp.exists():
             outp.unlink()
         cmd = ['timeout', str(timeout), PY, str(VERIF / 'harness' / 'impl_runner.py'), observer, str(inp), str(outp)]
-        r = subprocess.run(cmd, capture_output=True, text=True, env=self.impl_env(hashseed), cwd=str(self.work))
+        env = self.impl_env(hashseed)
+        if extra_env:
+            env.update(extra_env)
+        r = subprocess.run(cmd, capture_output=True, text=True, env=env, cwd=str(self.work))
         if r.returncode != 0 or not outp.exists():
             raise ImplFailure(observer, r.returncode, (r.stdout + r.stderr)[-3000:])
         return json.loads(outp.read_text())
